@@ -106,6 +106,10 @@ func (g *Graph) AddEdge(v1, v2 Vertex) {
 func (g *Graph) AddEdgeWeighted(v1, v2 Vertex, weight int) {
 	g.init()
 	h1, h2 := hashcode(v1), hashcode(v2)
+	if g.adjacencyOut[h1] == nil || g.adjacencyIn[h2] == nil {
+		// One of the vertices is not in the graph: do nothing.
+		return
+	}
 	g.adjacencyOut[h1][h2] = weight
 	g.adjacencyIn[h2][h1] = weight
 }
